@@ -1157,6 +1157,35 @@ func scanGates(c *Ctx, b *ana.Builder, loopOK func(b2 *ana.Builder, l *rangeLoop
 	return out
 }
 
+// uniqueCallee resolves the routine whose result the literals of the edges
+// test (the call in the literal's first operand, or the literal itself); ok is
+// false when the edges test different routines — a wildcard gate pattern must
+// not be satisfiable by a second, undecided routine.
+func uniqueCallee(ces []ana.CondEdge) (*ssa.Function, bool) {
+	var fn *ssa.Function
+	ok := true
+	for _, ce := range ces {
+		lits := []*ana.Term{ce.Lit}
+		if ce.Lit.Op == "and" || ce.Lit.Op == "or" {
+			lits = ce.Lit.Args
+		}
+		for _, lit := range lits {
+			h := calleeOf(lit)
+			if h == nil && len(lit.Args) > 0 {
+				h = calleeOf(lit.Arg(0))
+			}
+			if h == nil {
+				continue
+			}
+			if fn != nil && fn != h {
+				ok = false
+			}
+			fn = h
+		}
+	}
+	return fn, ok
+}
+
 // calleeMatching finds in t the call term that itself has the shape pat and
 // returns its callee; when t only has that shape after looking through a
 // helper, the helper's result term is searched instead (three levels).
